@@ -689,3 +689,85 @@ fn rng_len(rng: &mut Rng) -> usize {
 fn props(ty: &[u8], dec: &[u8]) -> String {
     args(&[b"TokenName".to_vec(), ty.to_vec(), b"owner".to_vec(), b"0".to_vec(), b"0".to_vec(), dec.to_vec(), b"IsPaused-false".to_vec()])
 }
+
+/// Directed scenarios reproducing findings on the unchanged contracts (and, after a repair,
+/// showing that the repaired behaviour is in place).  Used to produce committed corpus files.
+pub fn scenario(rng: &mut Rng, sink: &mut Sink, which: &str) {
+    let mut w = setup(rng, sink);
+    let tok_tid = w.tokens.iter().find(|t| t.1 == TOK).map(|t| t.0.clone()).unwrap_or(vec![0u8; 32]);
+    match which {
+        // F1: the failure callback of a transfer with data cannot take the tokens back
+        "F1" => {
+            let op = w.operator.clone();
+            w.tx(sink, &op, "setFlowLimits", 0, "-", &[nat(1), tok_tid.clone(), nat(1), nat(50)]);
+            let payload = transfer_payload(&tok_tid, b"0xsrc", &user(5), 30, b"hello");
+            let id = w.approve(rng, sink, ETH, ETH_ITS, &payload, None);
+            w.execute(sink, &user(3), ETH, &id, ETH_ITS, &payload, 0);
+            // inside the window the limit is lowered below the amount in flight
+            w.tx(sink, &op, "setFlowLimits", 0, "-", &[nat(1), tok_tid.clone(), nat(1), nat(10)]);
+            sink.exec("deliver 0 fail");
+            sink.exec("cb 0");
+            sink.exec(&format!("bal {} {}", hex::encode(&w.its), TOK));
+            w.query(sink, "transferWithDataLock", &[ETH.to_vec(), id.clone()]);
+            // the message can never be retried: the lock stays set
+            w.execute(sink, &user(3), ETH, &id, ETH_ITS, &payload, 0);
+        }
+        // F2: gas value stranded when the callback's checks fail
+        "F2a" => {
+            w.tx(sink, &user(3), "deployRemoteCanonicalInterchainToken", 77, "-", &[TOK.as_bytes().to_vec(), b"nowhere".to_vec()]);
+            sink.exec(&format!("deliver 0 ok {}", props(b"FungibleESDT", b"NumDecimals-18")));
+            sink.exec("cb 0");
+            sink.exec(&format!("bal {} EGLD", hex::encode(&w.its)));
+        }
+        "F2b" => {
+            let o = w.owner.clone();
+            w.tx(sink, &o, "removeTrustedAddress", 0, "-", &[HUB.to_vec()]);
+            w.tx(sink, &user(3), "registerTokenMetadata", 33, "-", &[TOK.as_bytes().to_vec()]);
+            sink.exec(&format!("deliver 0 ok {}", props(b"FungibleESDT", b"NumDecimals-18")));
+            sink.exec("cb 0");
+            sink.exec(&format!("bal {} EGLD", hex::encode(&w.its)));
+        }
+        // F4: two issuances in flight for one native token manager
+        "F4" => {
+            let a = vec![vec![7u8; 32], b"My Token".to_vec(), b"MTK".to_vec(), vec![18], nat(1000), vec![0u8; 32]];
+            w.tx(sink, &user(1), "deployInterchainToken", 0, "-", &a);
+            w.tx(sink, &user(1), "deployInterchainToken", 50000000000000000, "-", &a);
+            w.tx(sink, &user(1), "deployInterchainToken", 50000000000000000, "-", &a);
+            let tm = tm_addr(w.tokens.len()); // managers deployed so far: one per registered token
+            sink.exec(&format!("deliver 0 ok {}", hex::encode(b"MTK-111111")));
+            sink.exec(&format!("deliver 1 ok {}", hex::encode(b"MTK-222222")));
+            sink.exec("cb 0");
+            sink.exec(&format!("query {} tokenIdentifier -", hex::encode(&tm)));
+            sink.exec("cb 1");
+            sink.exec(&format!("query {} tokenIdentifier -", hex::encode(&tm)));
+        }
+        // F5: remote deployment goes through while the service is paused
+        "F5" => {
+            let o = w.owner.clone();
+            w.tx(sink, &o, "pause", 0, "-", &[]);
+            w.tx(sink, &user(3), "deployRemoteCanonicalInterchainToken", 7, "-", &[TOK.as_bytes().to_vec(), ETH.to_vec()]);
+            sink.exec(&format!("bal {} EGLD", hex::encode(&w.its)));
+        }
+        // F6: the third factory step (mint and role hand-over) goes through while paused
+        "F6" => {
+            factory_flow_until_issued(rng, sink, &mut w);
+            let o = w.owner.clone();
+            w.tx(sink, &o, "pause", 0, "-", &[]);
+            let a = vec![vec![7u8; 32], b"My Token".to_vec(), b"MTK".to_vec(), vec![18], nat(1000), user(4)];
+            w.tx(sink, &user(1), "deployInterchainToken", 0, "-", &a);
+            sink.exec(&format!("bal {} MTK-abcdef", hex::encode(user(1))));
+        }
+        _ => panic!("unknown scenario"),
+    }
+}
+
+fn factory_flow_until_issued(_rng: &mut Rng, sink: &mut Sink, w: &mut World) {
+    let a = vec![vec![7u8; 32], b"My Token".to_vec(), b"MTK".to_vec(), vec![18], nat(1000), user(4)];
+    let out = w.tx(sink, &user(1), "deployInterchainToken", 0, "-", &a);
+    w.track(&out, PendK::Issue);
+    let out = w.tx(sink, &user(1), "deployInterchainToken", 50000000000000000, "-", &a);
+    w.track(&out, PendK::Issue);
+    sink.exec(&format!("deliver 0 ok {}", hex::encode(b"MTK-abcdef")));
+    sink.exec(&format!("roles {} MTK-abcdef ESDTRoleLocalMint,ESDTRoleLocalBurn", hex::encode(tm_addr(w.next_tm - 1))));
+    sink.exec("cb 0");
+}
